@@ -889,3 +889,158 @@ c03_headers_b1 = _mkh('c03_headers_b1', CASE_B, 'site-removing SNV + in-frame de
 c03_headers_c1 = _mkh('c03_headers_c1', CASE_C, '3 SNVs in a pop-collapsed bubble', 1, ('quick', 'thorough'))
 c03_headers_a2 = _mkh('c03_headers_a2', CASE_A, '2 SNVs', 2, ('thorough',))
 c03_headers_c2 = _mkh('c03_headers_c2', CASE_C, '3 SNVs in a pop-collapsed bubble', 2, ('thorough',))
+
+
+# --------------------------------------------------------------------------
+# C02 / C03 with --selenocysteine-termination: concrete selenoprotein with two SNVs through the real call_peptide_main
+# --------------------------------------------------------------------------
+class _SecVarCase:
+    """M A E G L L T D N K | V S A G T L E Q K | M T P E L D G H U A V L N R | G G H K
+    SNV1: D>A in peptide 3 (GAC>GCC); SNV2: H>Q in the codon directly before the Sec codon (CAC>CAG, abutting TGA).
+    Peptide 3 starts with an INTERNAL methionine."""
+    PROT = 'MAEGLLTDNKVSAGTLEQKMTPELDGHUAVLNRGGHK'
+
+    def __init__(self):
+        import sys
+        from moPepGen import dna, svgraph
+        from mpgverif.harness.annobuild import anno_one_gene
+        import moPepGen.cli.call_variant_peptide  # noqa: F401
+        cvp = sys.modules['moPepGen.cli.call_variant_peptide']
+        codon = dict(CODON)
+        codon.update({'U': 'TGA', 'P': 'CCG'})
+        self.cds = ''.join(codon[a] for a in self.PROT)
+        self.tx = UTR5 + self.cds + 'TAA' + UTR3
+        cs = len(UTR5)
+        ce = cs + len(self.cds) + 3
+        self.u = cs + 3 * self.PROT.index('U')
+        d = cs + 3 * self.PROT.index('D', 20) + 1
+        h = cs + 3 * self.PROT.index('H') + 2
+        self.vars = [(d, 'A', 'C'), (h, 'C', 'G')]
+        for p, r, a in self.vars:
+            assert self.tx[p] == r, (p, r, self.tx[p])
+        anno = anno_one_gene(0, len(self.tx), 1, [(0, len(self.tx))], cds=[(cs, ce - 3)], sec=[(self.u, self.u + 3)],
+                             three_utr=[(ce, len(self.tx))])
+        genome = dna.DNASeqDict({'chr1': dna.DNASeqRecord(Seq(self.tx), id='chr1', name='chr1', description='chr1')})
+        tx_seqs = {'T1': anno.transcripts['T1'].get_transcript_sequence(genome['chr1'])}
+        recs = [VariantRecord(location=FeatureLocation(seqname='T1', start=p, end=p + 1), ref=r, alt=a, _type='SNV',
+                              _id=f'SNV-{p + 1}-{r}-{a}', attrs={'GENE_ID': 'G1', 'TRANSCRIPT_ID': 'T1'})
+                for p, r, a in self.vars]
+        self.ids = {f'SNV-{p + 1}-{r}-{a}': (p, r, a) for p, r, a in self.vars}
+        ref_full = self._tr(self.tx, False)
+        ref_trunc = self._tr(self.tx, True)
+        self.ref = {q for q, k in _digest(ref_full)} | {q for q, k in _digest(ref_trunc)}
+        self.deny = {Seq(q) for q, k in _digest(ref_full)}
+        real = svgraph.PeptideVariantGraph.call_variant_peptides
+
+        def capture(pg, **kwargs):
+            raise _Captured(pg, kwargs)
+
+        p = CleavageParams(enzyme='trypsin', miscleavage=2, min_length=1, max_length=100, min_mw=0.)
+        svgraph.PeptideVariantGraph.call_variant_peptides = capture
+        try:
+            cvp.call_peptide_main(tx_id='T1', tx_variants=recs, variant_pool=_Pool(), ref=_Ref(anno, genome),
+                                  tx_seqs=tx_seqs, gene_seqs={}, cleavage_params=p, max_adjacent_as_mnv=2,
+                                  truncate_sec=True, w2f=False, denylist=self.deny, save_graph=False,
+                                  coding_novel_orf=False)
+            raise RuntimeError('call_variant_peptides was not reached')
+        except _Captured as c:
+            _order_sets(c.pgraph)
+            self.graph, self.kwargs = c.pgraph, c.kwargs
+        finally:
+            svgraph.PeptideVariantGraph.call_variant_peptides = real
+        self.cands = set()
+        for n in (1, 2):
+            for sub in itertools.combinations(self.vars, n):
+                s = self._apply(sub)
+                self.cands |= _digest(self._tr(s, False)) | _digest(self._tr(s, True))
+        self.cands = {(q, k) for q, k in self.cands if q and q not in self.ref}
+
+    def _apply(self, sub):
+        s = self.tx
+        for p, r, a in sub:
+            s = s[:p] + a + s[p + 1:]
+        return s
+
+    def _tr(self, tx, truncate):
+        """translate the CDS; the annotated Sec codon reads U, or ends the protein when truncate"""
+        from Bio.Data import CodonTable
+        fwd = CodonTable.unambiguous_dna_by_id[1].forward_table
+        out = []
+        for i in range(len(UTR5), len(tx) - 2, 3):
+            c = tx[i:i + 3]
+            if i == self.u:
+                if truncate:
+                    break
+                out.append('U')
+                continue
+            if c in ('TAA', 'TAG', 'TGA'):
+                break
+            out.append(fwd[c])
+        return ''.join(out)
+
+    def run(self, misc, lo, hi):
+        from crosshair.tracers import NoTracing
+        with NoTracing():
+            pg, kwargs = copy.deepcopy((self.graph, self.kwargs))
+        pg.cleavage_params = CleavageParams(enzyme='trypsin', miscleavage=misc, min_length=lo, max_length=hi, min_mw=0.)
+        return pg.call_variant_peptides(**kwargs)
+
+    def check(self, misc, lo, hi):
+        got = {str(s) for s in self.run(misc, lo, hi)}
+        want = {q for q, k in self.cands if k <= misc and lo <= len(q) <= hi}
+        if want - got:
+            return -1
+        if got - want:
+            return -4
+        return OK
+
+    def headers(self, misc, lo, hi):
+        res = self.run(misc, lo, hi)
+        seen = set()
+        n = 0
+        for seq, labels in res.items():
+            for lab in labels:
+                n += 1
+                if lab.label in seen:
+                    return -4
+                seen.add(lab.label)
+                parts = lab.label.split('|')
+                if parts[0] != 'T1' or not parts[-1].isdigit():
+                    return -1
+                ids = parts[1:-1]
+                sect = [i for i in ids if i.startswith('SECT-')]
+                small = [i for i in ids if not i.startswith('SECT-')]
+                if not ids or len(sect) > 1 or any(i not in self.ids for i in small) or len(set(ids)) != len(ids):
+                    return -2
+                s = self._apply([self.ids[i] for i in small])
+                prods = {q for q, k in _digest(self._tr(s, bool(sect))) if k <= misc}
+                if str(seq) not in prods:
+                    return -3
+        return OK if n else SKIP
+
+
+CASE_SECVAR = _Lazy(_SecVarCase)
+ENC_SV = ['moPepGen.cli.call_variant_peptide.call_peptide_main (graph construction with gather_sect_variants: concrete, '
+          'before the symbolic run)'] + ENC
+_BSV = ('ONE concrete selenoprotein transcript (37 codons) with 2 SNVs in the peptide that holds the Sec codon (one of them '
+        'abutting the codon; the peptide starts with an internal methionine), --selenocysteine-termination on; '
+        'miscleavage = %s, min_length and max_length UNBOUNDED symbolic integers')
+
+
+def _mksv(prop, name, what, misc, tiers):
+    def f(lo: int, hi: int) -> int:
+        """
+        pre: 1 <= lo
+        post: _ >= 0
+        """
+        return getattr(CASE_SECVAR, what)(misc, lo, hi)
+    f.__name__ = f.__qualname__ = name
+    codes = CODES_H if what == 'headers' else CODES
+    return cond(prop, bounds=_BSV % misc, encodes=ENC_SV, stubs=STUBS + ['variant pool -> stand-in without further variants'],
+                codes=codes, timeout=900, tiers=tiers)(f)
+
+
+c02_sect_traversal_1 = _mksv('C02', 'c02_sect_traversal_1', 'check', 1, ('quick', 'thorough'))
+c02_sect_traversal_2 = _mksv('C02', 'c02_sect_traversal_2', 'check', 2, ('thorough',))
+c03_sect_headers_1 = _mksv('C03', 'c03_sect_headers_1', 'headers', 1, ('quick', 'thorough'))
+c03_sect_headers_2 = _mksv('C03', 'c03_sect_headers_2', 'headers', 2, ('thorough',))
